@@ -1,5 +1,3 @@
 package main
 
-func genXdr() string      { return "-- placeholder\n" }
-func genDispatch() string { return "-- placeholder\n" }
 func genSkeleton() string { return "-- placeholder\n" }
